@@ -23,7 +23,7 @@ class Dom:
 
     def elem(self, label, children=None, eq=None, parent=None, attributes=None, childlist=True):
         o = A.Obj(label, {'nodeType': ELEMENT, 'nodeName': label, 'parentNode': parent, 'ownerDocument': self.doc,
-                          'attributes': attributes, '__eqkey': eq or label}, cls=self.Node)
+                          'attributes': attributes, '__eqkey': eq or label, 'isElementContentWhitespace': False}, cls=self.Node)
         if childlist:
             o.attrs['_dom_childNodes'] = []
             for c in children or []:
@@ -86,11 +86,25 @@ class DomHooks(SelfHooks):
                                     'attributes': ({} if isinstance(src, A.Obj) and isinstance(src.attrs.get('attributes'), dict) else None),
                                     '_dom_childNodes': [], '__eqkey': ('new', k)}, cls=self.Node)
             return o
+        if fname.endswith('.createElement') and len(args) == 1 and isinstance(args[0], str):
+            k = state.env.get('__new', 0)
+            state.env['__new'] = k + 1
+            lv = state.env.get('__levels', {})
+            owner = interp.ev(node.func.value, state) if isinstance(node.func, ast.Attribute) else None
+            return A.Obj('new-%s%d' % (args[0], k), {'nodeType': ELEMENT, 'nodeName': args[0], 'parentNode': None,
+                                                 'ownerDocument': owner if isinstance(owner, A.Obj) else None, 'isElementContentWhitespace': False,
+                                                 'attributes': None, '_dom_childNodes': [], '__eqkey': ('new', k), 'blockType': False,
+                                                 'level': lv.get(args[0], lv.get('*', 100))}, cls=state.env.get('__elemcls', self.Node))
+        if fname == 'isinstance' and len(args) == 2 and isinstance(args[0], (A.Obj, A.TextObj)) and '__isa' in args[0].attrs:
+            return text(node.args[1]).split('.')[-1] in args[0].attrs['__isa']
         if fname.endswith('.createTextNode') and len(args) == 1 and isinstance(args[0], str):
             k = state.env.get('__new', 0)
             state.env['__new'] = k + 1
+            owner = interp.ev(node.func.value, state) if isinstance(node.func, ast.Attribute) else None
             return A.TextObj(str(args[0]), label='newtext%d' % k, nodeType=TEXT, TEXT_NODE=TEXT, ELEMENT_NODE=ELEMENT,
-                             DOCUMENT_FRAGMENT_NODE=FRAGMENT, nodeName='#text', parentNode=None, ownerDocument=None,
+                             DOCUMENT_FRAGMENT_NODE=FRAGMENT, nodeName='#text', parentNode=None,
+                             ownerDocument=owner if isinstance(owner, A.Obj) else None, level=state.env.get('__levels', {}).get('*', 100),
+                             blockType=False, isElementContentWhitespace=not str(args[0]).strip(),
                              __eqkey=('text', str(args[0])), attributes=None)
         if fname == 'isinstance' and len(args) == 2:
             t = text(node.args[1])
